@@ -28,6 +28,18 @@
 // shifters, tag c08p) while nothing is in flight; every instant the oracle uses is
 // taken from the same virtual clock (real time + the jumps so far).  The oracle is
 // the same one, with the lease a referral grants read as min(TTL, 12 h).
+//
+// The denied-subtree family (Scenario.Kind = "negsub"; LeasePipe.tla with cfg.kind = "negsub", real time): the
+// NEGATIVE answers of the statement ("every answer, negative answer, ... learned through the old delegation has
+// stopped being served by then").  The first version of c.p. has no d.c.p. (a signed, validated NXDOMAIN: the cache
+// publishes the RFC 8020 cut "nothing exists at or below d.c.p." and the RFC 8198 proofs next to the exact entry);
+// every re-pointed version has d.c.p. and www.d.c.p.  A child that lacks the subtree may be SLOW about saying so
+// (Scenario.LatMs: its denials of names under d.c.p. are held back), so that the denial is written to the cache
+// after the lease of the delegation it was learned through has already ended.  Every version's SOA serial encodes
+// the delegation versions (1000*p + c), so an NXDOMAIN reply names the delegation it was learned through exactly
+// like the 10.p.c.1 address of a positive one, and the same oracle applies -- restricted to what the statement
+// bears: an NXDOMAIN carrying the SOA of a version the parent no longer delegates to, to a query started after the
+// most lenient lease of that version ended, for a name the zone the parent delegates to NOW has.
 package c08pipe
 
 import (
@@ -56,8 +68,9 @@ type Step struct {
 	Op    string `json:"op"`    // query | hot | withdraw | repoint | withdrawP | repointP | jump
 	Until int    `json:"until"` // hot: keep querying until (ms)
 	Every int    `json:"every"` // hot: period (ms)
-	Exp   string `json:"exp"`   // model prediction: "p.c" version pair | "nx" | "any"
+	Exp   string `json:"exp"`   // model prediction: "p.c" version pair | "nx" | "nxP.C" (a denial by version P.C) | "any"
 	D     int    `json:"d"`     // jump: seconds the virtual clock advances
+	Name  string `json:"name"`  // query: "" / "w" = www.c.p. | "d" = d.c.p. (the denied name) | "b" = www.d.c.p. (a name below it)
 }
 
 // ceilingSec is the ceiling the STATEMENT puts on every lease (12 h); deliberately not read from the code.
@@ -81,7 +94,21 @@ type Scenario struct {
 	Prefetch uint32 `json:"prefetch"`
 	// Long: the long-lease family -- the clock moves by "jump" steps only (virtual clock)
 	Long bool `json:"long"`
+	// Kind: "" / "pos" | "negsub" = the denied-subtree family (see the package comment); LatMs: how long a child
+	// version that lacks d.c.p. holds back its denials of names at or below it
+	Kind  string `json:"kind"`
+	LatMs int    `json:"latMs"`
 }
+
+func (sc *Scenario) negsub() bool { return sc.Kind == "negsub" }
+
+// hasSub: does child version cv own d.c.p. / www.d.c.p.?  (LeasePipe.tla Has(c))
+func hasSub(cv int) bool { return cv >= 2 }
+
+const (
+	deniedName = "d.c.p."
+	belowName  = "www.d.c.p."
+)
 
 type Input struct {
 	Scenarios []Scenario `json:"scenarios"`
@@ -102,6 +129,10 @@ type queryRec struct {
 	TTL        uint32
 	Exp        string
 	Hot        bool
+	Name       string // the question
+	// NegPV, NegCV: the delegation versions encoded in the serial of the c.p. SOA an NXDOMAIN reply carries
+	// (0,0 = none: not NXDOMAIN, or denied by p. / the root)
+	NegPV, NegCV int
 }
 
 type change struct {
@@ -123,6 +154,7 @@ type world struct {
 	pch     []change      // changes of edge p (at the root)
 	cch     map[int][]change
 	qname   string
+	csrv    map[[2]int]*authkit.Server // (pv, cv) -> the socket of that version of c.p.
 	// virtual clock: real time + the jumps so far
 	off time.Duration
 	ch  *cache.Cache
@@ -160,6 +192,16 @@ func (w *world) fillChild(z *authkit.Zone, srv *authkit.Server, pv, cv int) erro
 	ttl := w.sc.ChildTTL
 	if ttl == 0 {
 		ttl = 3600
+	}
+	if w.sc.negsub() {
+		// the SOA names the delegation versions this zone copy was reached through: a denial carries its provenance
+		z.Remove(z.Name, dns.TypeSOA)
+		z.AddRR(&dns.SOA{Hdr: dns.RR_Header{Name: z.Name, Rrtype: dns.TypeSOA, Class: dns.ClassINET, Ttl: 600}, Ns: "ns." + z.Name,
+			Mbox: "hostmaster." + z.Name, Serial: uint32(1000*pv + cv), Refresh: 3600, Retry: 600, Expire: 86400, Minttl: 60})
+		if hasSub(cv) {
+			z.AddRR(authkit.ARR(deniedName, dataIP(pv, cv), ttl))
+			z.AddRR(authkit.ARR(belowName, dataIP(pv, cv), ttl))
+		}
 	}
 	if !w.sc.Deep {
 		z.AddRR(authkit.ARR("www."+z.Name, dataIP(pv, cv), ttl))
@@ -228,6 +270,21 @@ func (w *world) childHook(z *authkit.Zone) func(*authkit.Exchange) {
 	}
 }
 
+// slowDenialHook (denied-subtree family): a child version without d.c.p. holds back every NXDOMAIN it gives for a
+// name at or below d.c.p. by Scenario.LatMs; the delay is logged so that the oracle can tell it from latency.
+func (w *world) slowDenialHook(z *authkit.Zone, next func(*authkit.Exchange)) func(*authkit.Exchange) {
+	return func(ex *authkit.Exchange) {
+		next(ex)
+		if w.sc.LatMs <= 0 || ex.Zone != z || ex.Resp == nil || ex.Resp.Rcode != dns.RcodeNameError || ex.Truth.Kind != "nxdomain" ||
+			!authkit.IsSub(ex.Q.Name, deniedName) {
+			return
+		}
+		d := time.Duration(w.sc.LatMs) * time.Millisecond
+		w.delays.Add(w.vnow(), d, ex.Q)
+		ex.Delay = d
+	}
+}
+
 func (w *world) newChild(pz *authkit.Zone, pv, cv int, first bool) error {
 	label := fmt.Sprintf("c%d.%d", pv, cv)
 	z, srv, err := w.n.NewDetachedZone(label, "c.p.", w.sc.Signed)
@@ -253,8 +310,13 @@ func (w *world) newChild(pz *authkit.Zone, pv, cv int, first bool) error {
 	}
 	w.mu.Lock()
 	w.glueVer[cut.Glue[0].(*dns.A).A.String()] = [2]int{pv, cv}
+	w.csrv[[2]int{pv, cv}] = srv
 	w.mu.Unlock()
-	srv.SetHook(w.childHook(z))
+	if w.sc.negsub() {
+		srv.SetHook(w.slowDenialHook(z, w.childHook(z)))
+	} else {
+		srv.SetHook(w.childHook(z))
+	}
 	pz.Delegate(cut)
 	return nil
 }
@@ -285,7 +347,7 @@ func build(sc *Scenario) (*world, error) {
 	if err != nil {
 		return nil, err
 	}
-	w := &world{sc: sc, n: n, glueVer: map[string][2]int{}, pv: 1, cv: 1, cch: map[int][]change{}}
+	w := &world{sc: sc, n: n, glueVer: map[string][2]int{}, pv: 1, cv: 1, cch: map[int][]change{}, csrv: map[[2]int]*authkit.Server{}}
 	w.qname = "www.c.p."
 	if sc.Deep {
 		w.qname = "www.g.c.p."
@@ -392,10 +454,25 @@ func versionAt(chs []change, t time.Time) int {
 }
 
 func (w *world) query(ask func(*dns.Msg) *dns.Msg, exp string, hot bool) queryRec {
+	return w.queryName(ask, exp, hot, w.qname)
+}
+
+// nameOf maps a step's name tag to the question.
+func (w *world) nameOf(tag string) string {
+	switch tag {
+	case "d":
+		return deniedName
+	case "b":
+		return belowName
+	}
+	return w.qname
+}
+
+func (w *world) queryName(ask func(*dns.Msg) *dns.Msg, exp string, hot bool, qname string) queryRec {
 	q := new(dns.Msg)
-	q.SetQuestion(w.qname, dns.TypeA)
+	q.SetQuestion(qname, dns.TypeA)
 	q.SetEdns0(1232, false)
-	rec := queryRec{Start: w.vnow(), Exp: exp, Hot: hot}
+	rec := queryRec{Start: w.vnow(), Exp: exp, Hot: hot, Name: qname}
 	ch := make(chan *dns.Msg, 1)
 	go func() { ch <- ask(q) }()
 	var m *dns.Msg
@@ -410,10 +487,18 @@ func (w *world) query(ask func(*dns.Msg) *dns.Msg, exp string, hot bool) queryRe
 	}
 	rec.Rcode = dns.RcodeToString[m.Rcode]
 	for _, rr := range m.Answer {
-		if a, ok := rr.(*dns.A); ok && strings.EqualFold(a.Hdr.Name, w.qname) {
+		if a, ok := rr.(*dns.A); ok && strings.EqualFold(a.Hdr.Name, qname) {
 			ip := a.A.To4()
 			if ip != nil && ip[0] == 10 {
 				rec.PV, rec.CV, rec.TTL = int(ip[1]), int(ip[2]), a.Hdr.Ttl
+			}
+		}
+	}
+	if w.sc.negsub() && m.Rcode == dns.RcodeNameError {
+		// which copy of c.p. denied the name: the serial fillChild gave its SOA
+		for _, rr := range m.Ns {
+			if soa, ok := rr.(*dns.SOA); ok && strings.EqualFold(soa.Hdr.Name, "c.p.") && soa.Serial >= 1000 {
+				rec.NegPV, rec.NegCV, rec.TTL = int(soa.Serial/1000), int(soa.Serial%1000), soa.Hdr.Ttl
 			}
 		}
 	}
@@ -426,11 +511,19 @@ type verdict struct {
 	Reply   string  `json:"reply"`
 	LeaseMs float64 `json:"leaseEndMs"`
 	OverMs  float64 `json:"overMs"`
-	Class   string  `json:"class"` // current | leased | gray | ghost | other
+	Class   string  `json:"class"` // current | leased | gray | ghost | other; denials: neg_current | neg_leased | neg_gray | ghost_neg | neg_agrees
+	// denials only: the name asked, the version the parent delegated to when the query started, and how often that
+	// version's servers were asked for the name during the query
+	Name     string `json:"name,omitempty"`
+	Cur      string `json:"cur,omitempty"`
+	CurAsked int    `json:"curAsked,omitempty"`
 }
 
 // judge applies the oracle to one scenario's records.
-func (w *world) judge(t0 time.Time, qs []queryRec) (verdicts []verdict, ghosts []verdict) {
+// leaseFn is the oracle's lease arithmetic, for the denied-subtree family's reachability counters.
+type leaseFn func(pv, cv int, end time.Time) (lease, leaseMin time.Time)
+
+func (w *world) judge(t0 time.Time, qs []queryRec) (verdicts []verdict, ghosts []verdict, leaseOf leaseFn) {
 	ms := func(t time.Time) float64 { return float64(t.Sub(t0).Microseconds()) / 1000 }
 	cTTL, pTTL := w.sc.CNS, w.sc.PNS
 	if w.sc.Signed {
@@ -466,24 +559,10 @@ func (w *world) judge(t0 time.Time, qs []queryRec) (verdicts []verdict, ghosts [
 		}
 		return at, at.Add(400 * time.Millisecond) // served outside any client query (detached work)
 	}
-	for i, q := range qs {
-		v := verdict{Index: i, StartMs: ms(q.Start), Reply: fmt.Sprintf("%s %d.%d ttl=%d", q.Rcode, q.PV, q.CV, q.TTL)}
-		if q.PV == 0 {
-			v.Class = "other"
-			verdicts = append(verdicts, v)
-			continue
-		}
-		curP := versionAt(w.pch, q.Start)
-		curC := versionAt(w.cch[q.PV], q.Start)
-		if curP == q.PV && curC == q.CV {
-			v.Class = "current"
-			verdicts = append(verdicts, v)
-			continue
-		}
-		// stale data: find the most lenient lease among the referrals of that version
-		var lease, leaseMin time.Time
+	// leaseOf: the most lenient lease among the referrals to version (pv, cv) served up to end (zero: none)
+	leaseOf = func(pv, cv int, end time.Time) (lease, leaseMin time.Time) {
 		for _, r := range refs {
-			if r.Edge != "c" || r.PV != q.PV || r.CV != q.CV || r.At.After(q.End) {
+			if r.Edge != "c" || r.PV != pv || r.CV != cv || r.At.After(end) {
 				continue
 			}
 			lo, hi := obsBound(r.At)
@@ -491,7 +570,7 @@ func (w *world) judge(t0 time.Time, qs []queryRec) (verdicts []verdict, ghosts [
 			// the shallower cut: the latest root referral for that p version at or before r
 			var pr *refEvent
 			for k := range refs {
-				if refs[k].Edge == "p" && refs[k].PV == q.PV && !refs[k].At.After(r.At) {
+				if refs[k].Edge == "p" && refs[k].PV == pv && !refs[k].At.After(r.At) {
 					pr = &refs[k]
 				}
 			}
@@ -508,6 +587,75 @@ func (w *world) judge(t0 time.Time, qs []queryRec) (verdicts []verdict, ghosts [
 				lease, leaseMin = lc, lcMin
 			}
 		}
+		return
+	}
+	for i, q := range qs {
+		v := verdict{Index: i, StartMs: ms(q.Start), Reply: fmt.Sprintf("%s %d.%d ttl=%d", q.Rcode, q.PV, q.CV, q.TTL)}
+		if q.PV == 0 && q.NegCV != 0 {
+			// a NEGATIVE answer that names the copy of c.p. it was learned from ("every answer, negative answer, ...
+			// learned through the old delegation has stopped being served by then")
+			v.Reply = fmt.Sprintf("%s soa=%d.%d ttl=%d", q.Rcode, q.NegPV, q.NegCV, q.TTL)
+			v.Name = q.Name
+			curP := versionAt(w.pch, q.Start)
+			if curP == q.NegPV && versionAt(w.cch[q.NegPV], q.Start) == q.NegCV {
+				v.Class = "neg_current"
+				verdicts = append(verdicts, v)
+				continue
+			}
+			lease, leaseMin := leaseOf(q.NegPV, q.NegCV, q.End)
+			if lease.IsZero() {
+				v.Class = "other"
+				verdicts = append(verdicts, v)
+				continue
+			}
+			v.LeaseMs = ms(lease)
+			v.OverMs = float64(q.Start.Sub(lease).Microseconds()) / 1000
+			// what the parents delegate to when the query starts, and whether that zone has the name
+			nowC := 0
+			if curP != 0 {
+				nowC = versionAt(w.cch[curP], q.Start)
+			}
+			v.Cur = fmt.Sprintf("%d.%d", curP, nowC)
+			switch {
+			case q.Start.After(lease) && curP != 0 && nowC != 0 && hasSub(nowC):
+				w.mu.Lock()
+				cur := w.csrv[[2]int{curP, nowC}]
+				w.mu.Unlock()
+				if cur != nil {
+					for _, e := range cur.Log() {
+						if strings.EqualFold(e.Q.Name, q.Name) && !e.At.Add(w.off).Before(q.Start) && !e.At.Add(w.off).After(q.End) {
+							v.CurAsked++
+						}
+					}
+				}
+				v.Class = "ghost_neg"
+				ghosts = append(ghosts, v)
+			case q.Start.After(lease):
+				// the zone the parents point at (or the parent itself) denies the name as well: the rcode is the
+				// truth, only its provenance is stale -- not judged
+				v.Class = "neg_agrees"
+			case q.Start.After(leaseMin):
+				v.Class = "neg_gray"
+			default:
+				v.Class = "neg_leased"
+			}
+			verdicts = append(verdicts, v)
+			continue
+		}
+		if q.PV == 0 {
+			v.Class = "other"
+			verdicts = append(verdicts, v)
+			continue
+		}
+		curP := versionAt(w.pch, q.Start)
+		curC := versionAt(w.cch[q.PV], q.Start)
+		if curP == q.PV && curC == q.CV {
+			v.Class = "current"
+			verdicts = append(verdicts, v)
+			continue
+		}
+		// stale data: find the most lenient lease among the referrals of that version
+		lease, leaseMin := leaseOf(q.PV, q.CV, q.End)
 		if lease.IsZero() {
 			// data of a version no parent ever referred to: cannot happen with honest servers
 			v.Class = "other"
@@ -551,6 +699,10 @@ func runScenario(t *testing.T, sc *Scenario, res *vh.Result, det *[]map[string]a
 			cfg.Timeout.Duration = 1500 * time.Millisecond
 			cfg.QueryTimeout.Duration = 6 * time.Second
 			cfg.Prefetch = sc.Prefetch
+			if sc.negsub() && sc.LatMs > 0 {
+				// a slow authority is not a dead one: the held-back denial must arrive inside one exchange
+				cfg.Timeout.Duration = time.Duration(sc.LatMs)*time.Millisecond + 1500*time.Millisecond
+			}
 		}})
 	w.ch, _ = middleware.Get("cache").(*cache.Cache)
 	w.rh, _ = middleware.Get("resolver").(*resolver.DNSHandler)
@@ -586,7 +738,7 @@ func runScenario(t *testing.T, sc *Scenario, res *vh.Result, det *[]map[string]a
 					storedC[len(qs)] = fmt.Sprintf("; the delegation cache's own entry for c.p. ended at %.2f h", float64(t.Add(w.off).Sub(t0).Milliseconds())/3.6e6)
 				}
 			}
-			qs = append(qs, w.query(ask, st.Exp, false))
+			qs = append(qs, w.queryName(ask, st.Exp, false, w.nameOf(st.Name)))
 			if jumped > 0 {
 				afterJump++
 			}
@@ -613,7 +765,7 @@ func runScenario(t *testing.T, sc *Scenario, res *vh.Result, det *[]map[string]a
 			}
 		}
 	}
-	verdicts, ghosts := w.judge(t0, qs)
+	verdicts, ghosts, leaseOf := w.judge(t0, qs)
 	classes := map[string]int{}
 	for _, v := range verdicts {
 		classes[v.Class]++
@@ -628,6 +780,32 @@ func runScenario(t *testing.T, sc *Scenario, res *vh.Result, det *[]map[string]a
 		}
 	}
 	res.Count("referrals_logged", len(w.refs))
+	if sc.negsub() {
+		res.Count("negsub_scenarios", 1)
+		// the instants the family exists for: (a) a denial that came back only after every lease of the version that
+		// gave it had ended (what the cache is handed then is a deadline in the past); (b) a later question about
+		// the denied subtree, started after those leases, when the parents delegate to a version that has the
+		// name, and answered from that version
+		var late []queryRec
+		lat := time.Duration(sc.LatMs) * time.Millisecond
+		for i, q := range qs {
+			if q.NegCV != 0 && lat > 0 && q.End.Sub(q.Start) >= lat {
+				// the leases of that version granted by referrals served before the held-back denial was released
+				if l, _ := leaseOf(q.NegPV, q.NegCV, q.End.Add(-lat)); !l.IsZero() && q.End.After(l.Add(50*time.Millisecond)) {
+					res.Count("neg_denial_written_after_lease", 1)
+					late = append(late, q)
+				}
+			}
+			if q.Name != w.qname && q.PV != 0 && verdicts[i].Class == "current" {
+				for _, l := range late {
+					if l.NegPV != q.PV || l.NegCV != q.CV {
+						res.Count("neg_followed_parent_after_late_denial", 1)
+						break
+					}
+				}
+			}
+		}
+	}
 	sig := fmt.Sprintf("%s:%v", sc.ID, classes)
 	res.Case(sig)
 	for i, q := range qs {
@@ -639,6 +817,8 @@ func runScenario(t *testing.T, sc *Scenario, res *vh.Result, det *[]map[string]a
 			got := "nx"
 			if q.PV != 0 {
 				got = fmt.Sprintf("%d.%d", q.PV, q.CV)
+			} else if q.NegCV != 0 {
+				got = fmt.Sprintf("nx%d.%d", q.NegPV, q.NegCV)
 			}
 			if got != q.Exp && verdicts[i].Class != "gray" {
 				res.DriftNote("%s: query %d at %.0f ms: model predicts %s, code replied %s (%s)", sc.ID, i, verdicts[i].StartMs, q.Exp, verdicts[i].Reply, verdicts[i].Class)
@@ -651,6 +831,17 @@ func runScenario(t *testing.T, sc *Scenario, res *vh.Result, det *[]map[string]a
 	dmu.Unlock()
 	if len(ghosts) > 0 {
 		g := ghosts[0]
+		if g.Class == "ghost_neg" {
+			// ONE finding whatever the scenario's number: the key does not depend on the seed
+			res.Violate("ghost/negative-answer/denied-subtree", fmt.Sprintf("FollowsParent (negative answer): reply %q to a query for %s started at %.0f ms is a denial learned "+
+				"through a delegation of c.p. the parent had withdrawn/re-pointed; the most lenient lease the parent granted that version (min NS/DS TTL, shallower cut, "+
+				"measured observation latency) ended at %.0f ms (%.0f ms earlier); the version the parents delegate to at that moment (%s) HAS the name and its servers "+
+				"were asked %d time(s) for it during the query; scenario %s kind=%s latMs=%d signed=%v cNS=%d cDS=%d pNS=%d pDS=%d wire=%v",
+				g.Reply, g.Name, g.StartMs, g.LeaseMs, g.OverMs, g.Cur, g.CurAsked, sc.ID, sc.Kind, sc.LatMs, sc.Signed, sc.CNS, sc.CDS, sc.PNS, sc.PDS, sc.Wire),
+				map[string]any{"scenario": sc, "verdicts": verdicts})
+			res.Sample(out)
+			return
+		}
 		long, key := "", "ghost/"+sc.ID
 		if sc.Long {
 			// a ghost in a hierarchy whose every referral TTL exceeds the ceiling is ONE finding whatever the
